@@ -187,6 +187,9 @@ pub fn check_transition<R: RefTarget>(
     let mut agree = !nominal.starved && nominal.leftover == 0;
     let mut sens_x = vec![0.0f64; d];
     let mut sens_alpha = 0.0f64;
+    // the number of doublings depends only on the divergence and U-turn decisions
+    let mut depth_agree = !nominal.saw_nan && nominal.depth <= max_depth;
+    let mut margin_s = nominal.margin_s;
     for _ in 0..3 {
         let xp: Vec<f64> = t.position.iter().map(|v| jig(g, *v, beps)).collect();
         let rp: Vec<f64> = t.momentum.iter().map(|v| jig(g, *v, beps)).collect();
@@ -194,6 +197,10 @@ pub fn check_transition<R: RefTarget>(
         let lu = t.logu + (if g.bool() { 1.0 } else { -1.0 }) * 4.0 * beps.max(teps) * (t.logu.abs() + 1.0);
         let jp = target.logp(&xp) - 0.5 * refhmc::dot(&rp, &rp);
         let p = refhmc::transition(target, &xp, &rp, lu, jp, ep, &mut draws_of(t), max_depth);
+        if p.depth != nominal.depth || p.starved_top != nominal.starved_top || p.saw_nan {
+            depth_agree = false;
+        }
+        margin_s = margin_s.min(p.margin_s);
         if p.depth != nominal.depth || p.n != nominal.n || p.adoptions != nominal.adoptions || p.n_alpha != nominal.n_alpha || p.starved || p.leftover != 0 {
             agree = false;
         }
@@ -220,6 +227,24 @@ pub fn check_transition<R: RefTarget>(
         rep.count("transitions_that_stayed");
     }
     let xscale = t.position.iter().chain(nominal.next.iter()).map(|v| v.abs()).fold(0.0, f64::max);
+    // rounding accumulates along the trajectory: the margin asked of the go-on decisions grows with its length
+    let thr_s = 1e3 * beps.max(teps) * (1.0 + nominal.leaves as f64 / 16.0);
+    if depth_agree && margin_s > thr_s && margin_s.is_finite() {
+        rep.count("transitions_with_firm_number_of_doublings");
+        let detail = |what: &str| {
+            tj(json!({"mismatch": what, "doublings_recorded": t.dirs.len(), "reference": {"doublings": nominal.depth, "directions_ran_out_while_still_going": nominal.starved_top,
+                "leaves": nominal.leaves, "smallest_margin_of_U-turn/divergence_decisions": margin_s, "diverged": nominal.diverged}}))
+        };
+        if nominal.starved_top {
+            rep.violation(&format!("{sig} stopped-doubling-although-trajectory-neither-turned-nor-diverged"), mon, case, detail("stopped early"));
+            return false;
+        }
+        if t.dirs.len() != nominal.depth || t.depth != nominal.depth {
+            rep.violation(&format!("{sig} number-of-doublings-differs-from-Algorithm-6"), mon, case, detail("depth"));
+            return false;
+        }
+        rep.held();
+    }
     if firm {
         let detail = |what: &str| {
             tj(json!({"mismatch": what, "reference": {"depth": nominal.depth, "n": nominal.n, "alpha": fj(nominal.alpha), "n_alpha": nominal.n_alpha,
@@ -424,6 +449,65 @@ where
     let traces = parse(&events);
     rep.evals(traces.len() as u64);
     for t in &traces {
+        if !check_transition(rep, mon, case, g, &target, t, beps, teps, &cfg) {
+            return;
+        }
+    }
+}
+
+/// Long trajectories: an isotropic Gaussian of width sigma with a step size of sigma*pi/h needs about
+/// h leapfrog steps before it turns around; h in 1100..1900 asks for an eleventh doubling (1024
+/// leaves, "tree depth 10"), h in 2200..3800 for a twelfth.
+fn deep_trace_case<T, B>(ctx: &Ctx, rep: &mut Report, case: u64, g: &mut Sm64, bname: &str, beps: f64)
+where
+    T: Scalar,
+    B: AutodiffBackend,
+    StandardNormal: Distribution<T>,
+    StandardUniform: Distribution<T>,
+    Exp1: Distribution<T>,
+{
+    let mon = "trace";
+    let teps = if T::NAME == "f32" { f32::EPSILON as f64 } else { f64::EPSILON };
+    let d = g.range(1, 3);
+    let sigma = g.log_uniform(0.1, 1000.0);
+    let target = DiagGauss::new(vec![1.0 / (sigma * sigma); d], (0..d).map(|_| g.uniform(-1.0, 1.0)).collect());
+    let twelve = g.chance(if ctx.thorough { 0.3 } else { 0.15 });
+    let h = if twelve { g.uniform(2200.0, 3800.0) } else { g.uniform(1100.0, 1900.0) };
+    let eps = sigma * std::f64::consts::PI / h;
+    let seed = g.next_u64();
+    let init: Vec<T> = (0..d).map(|k| T::of(target.mean[k] + sigma * g.normal())).collect();
+    let cfg = json!({"target": target.name(), "sigma": sigma, "T": T::NAME, "backend": bname, "dim": d, "seed": seed, "mode": "long trajectories (forced step size sigma*pi/h)", "h": h,
+        "init": init.iter().map(|x| x.f()).collect::<Vec<_>>()});
+    rep.distinct(("trace-deep", T::NAME, bname.to_string(), d, case));
+    hook::enable();
+    let r = guard(|| {
+        let mut chain = NUTSChain::<T, B, DiagGauss>::new(target.clone(), init.clone(), T::of(0.8)).set_seed(seed);
+        let _ = chain.run(1, 0);
+        for _ in 0..2 {
+            chain.verif_set_epsilon(T::of(eps));
+            reset_budget(1 << 15);
+            chain.step();
+        }
+    });
+    let events = hook::take();
+    hook::disable();
+    reset_budget(u64::MAX);
+    if let Err(m) = r {
+        if m.contains(BUDGET_MSG) {
+            rep.inconclusive("target-evaluation budget (2^15 per transition) exhausted: trajectory too long to monitor");
+        } else {
+            rep.violation("NUTSChain::step panic", mon, case, json!({"cfg": cfg, "panic": m}));
+        }
+        return;
+    }
+    let traces = parse(&events);
+    rep.evals(traces.len() as u64);
+    if traces.len() != 2 {
+        rep.violation("NUTSChain::run number-of-transitions", mon, case, json!({"cfg": cfg, "traced": traces.len(), "expected": 2}));
+        return;
+    }
+    for t in &traces {
+        rep.count("long_trajectory_transitions");
         if !check_transition(rep, mon, case, g, &target, t, beps, teps, &cfg) {
             return;
         }
@@ -681,6 +765,14 @@ pub fn run(ctx: &Ctx, rep: &mut Report) {
     let e64 = f64::EPSILON;
     for c in ctx.case_ids("trace", 320, 160_000) {
         let mut g = ctx.rng("trace", c);
+        if c % 16 == 11 {
+            if (c / 16) % 4 == 3 {
+                deep_trace_case::<f32, B32>(ctx, rep, c, &mut g, "NdArray<f32>", e32);
+            } else {
+                deep_trace_case::<f64, B64>(ctx, rep, c, &mut g, "NdArray<f64>", e64);
+            }
+            continue;
+        }
         match c % 8 {
             0 | 2 | 4 => families::<f64, B64>(ctx, rep, c, &mut g, "NdArray<f64>", e64, false),
             1 | 5 => families::<f32, B32>(ctx, rep, c, &mut g, "NdArray<f32>", e32, false),
